@@ -166,6 +166,10 @@ def directed_packages():
         '<table:table table:name="t" table:style-name="Table1"><table:table-column/><table:table-row><table:table-cell><text:p text:style-name="Table1">x</text:p></table:table-cell></table:table-row></table:table>',
         autostyles='<style:style style:name="Table1" style:family="table"><style:table-properties style:width="10cm"/></style:style>',
         styles='<style:style style:name="Table1" style:family="paragraph"><style:text-properties fo:color="#ff0000"/></style:style>')))
+    # pictures in a folder below Pictures/, and manifest rows for the folders
+    out.append(('a folder below Pictures/ with manifest rows for the folders', P.make_package(
+        [('content.xml', P.content_xml('<text:p><draw:frame svg:width="1cm" svg:height="1cm"><draw:image xlink:href="Pictures/sub/x.png" xlink:type="simple"/></draw:frame></text:p>'), 'text/xml'),
+         ('styles.xml', P.styles_xml(), 'text/xml'), ('meta.xml', P.meta_xml(), 'text/xml'), ('Pictures/', '', ''), ('Pictures/sub/', '', ''), ('Pictures/sub/x.png', b'\x89PNG-x', 'image/png')])))
     # embedded objects as office suites write them: a chart with a meta.xml of its own, a formula whose content.xml is MathML
     obj = lambda n: '<text:p><draw:frame draw:name="%s" svg:width="5cm" svg:height="2cm"><draw:object xlink:href="./%s" xlink:type="simple" xlink:show="embed" xlink:actuate="onLoad"/></draw:frame></text:p>' % (n, n)
     chart = P.content_xml('<chart:chart chart:class="chart:bar"><chart:plot-area/></chart:chart>', kind='chart')
